@@ -188,6 +188,12 @@ type Transport struct {
 	accept  chan net.Conn
 	closeCh chan struct{}
 
+	// DeadlineScale > 1 compresses the clock of every deadline the CLIENT puts
+	// on a stream: a deadline d from now fires after d/DeadlineScale. Deadlines
+	// counts the client's SetDeadline calls.
+	DeadlineScale int
+	Deadlines     int
+
 	// FailDial, when non-nil, is asked before every dial (n counts from 0);
 	// a non-nil result is returned to the caller and no stream is created.
 	FailDial func(n int) error
@@ -222,6 +228,34 @@ func (c *trackedConn) Close() error {
 		c.t.mu.Unlock()
 	})
 	return err
+}
+
+// scaledConn is the client's end of a stream with a compressed deadline clock.
+type scaledConn struct {
+	net.Conn
+	t     *Transport
+	scale int
+}
+
+func (c *scaledConn) squeeze(d time.Time) time.Time {
+	c.t.mu.Lock()
+	c.t.Deadlines++
+	c.t.mu.Unlock()
+	if d.IsZero() {
+		return d
+	}
+	return time.Now().Add(time.Until(d) / time.Duration(c.scale))
+}
+
+func (c *scaledConn) SetDeadline(d time.Time) error      { return c.Conn.SetDeadline(c.squeeze(d)) }
+func (c *scaledConn) SetReadDeadline(d time.Time) error  { return c.Conn.SetReadDeadline(c.squeeze(d)) }
+func (c *scaledConn) SetWriteDeadline(d time.Time) error { return c.Conn.SetWriteDeadline(c.squeeze(d)) }
+
+// DeadlineCalls returns how many deadlines the client has set so far.
+func (t *Transport) DeadlineCalls() int {
+	t.mu.Lock()
+	defer t.mu.Unlock()
+	return t.Deadlines
 }
 
 // WaitIdle waits until the server side has closed every stream that was
@@ -269,8 +303,12 @@ func (t *Transport) DialStream(ctx context.Context) (net.Conn, error) {
 	}
 	t.mu.Lock()
 	t.open++
+	scale := t.DeadlineScale
 	t.mu.Unlock()
 	s = &trackedConn{Conn: s, t: t}
+	if scale > 1 {
+		c = &scaledConn{Conn: c, t: t, scale: scale}
+	}
 	select {
 	case t.accept <- s:
 		return c, nil
